@@ -42,6 +42,18 @@ CHECKS = {
     technique="exhaustive enumeration of generated block programs x all inputs of a small domain, each executed against a native-control-flow twin emitted from the same AST",
     text="Every program of the grammar assign | if/elif/else | while+breakif | for _range(secret stop, public max) | lazily evaluated selection (5 secret conditions, loop maxima 2-3, nesting 1 quick / 2 thorough, with explicit ctx= and with local-variable context lookup) is exec-ed twice (oblivious API on secrets, native Python on ints) on all (x,y) in {0..3}^2 (thorough: {-2..4}^2) x b x stop in 0..max: final values equal, recorder satisfied, value==wire, one canonical trace per program over all inputs, guard state clean and block stack empty, stop > max refused under checkstopmax.",
     note="Public loop bounds/conditions are not in the statement's scope. Twin evaluations that divide by a negative number are skipped (known finding KF-C05-negdiv)."),
+ "C10": dict(cat="model_checking", design="3/C10, 2.6",
+    technique="exhaustive enumeration of backend-API call sequences (variables x value classes x constraint shapes) on pysnark.snarkjsbackend, files read back by an independent decoder",
+    text="All traces of the bounded alphabet (0..3 variable declarations x public/private x 11 value classes incl. negative, >= p and > 256-bit values; 0..2 constraints whose sides range over a menu of up to 13 linear combinations incl. zero coefficients, cancelled terms and empty combinations; ~1.2e5 traces quick, 4e6 thorough) plus every E1 depth-1 program traced through the real backend are serialised by the backend's own prove() and decoded from the iden3 format specification: well-formedness (magic, version, section table, sizes, no trailing bytes, canonical field elements), header counts, decoded system == traced system under the documented wire numbering, decoded witness == traced values mod p, decoded witness satisfies decoded constraints.",
+    note="nLabels (written as 0) is not treated as a count of file content; the wire-to-label section must have nWires entries."),
+ "C11": dict(cat="model_checking", design="3/C11, 2.6",
+    technique="exhaustive enumeration of backend-API call sequences on the three zkinterface backends, files decoded by a hand-written FlatBuffers/zkinterface decoder",
+    text="Same trace alphabet as C10 on pysnark.zkinterface.backend (bn128), backendbellman (bls12-381) and backendbulletproofs (curve25519 order): each file is a sequence of size-prefixed messages and nothing else; header ids 1..npub with canonical values of ceil(bits(p)/8) bytes, free_variable_id, field_maximum = p-1; constraint message == traced constraints; witness ids npub+1..npub+npriv; decoded assignment satisfies decoded constraints; circuit.zkif has no Witness message and is byte-identical across traces differing only in private values.",
+    note="Decided modulo the FlatBuffers library: the package is absent from the image, a wire-faithful shim of flatbuffers.Builder (pv/shims/fb) is used; the decoder is written independently from zkinterface.fbs."),
+ "C12": dict(cat="model_checking", design="3/C12, 2.6",
+    technique="exhaustive enumeration of flat traces and of @subqap call histories on pysnark.qaptools.backend (failing tool stubs), files read back by an independent reader",
+    text="Flat traces (negative / >= p / > 256-bit values, zero and cancelled coefficients) and all call histories of two sub-circuit functions with bodies from a menu of 7 (incl. compound, constant, multiple results and nested calls) x call sequences up to length 3 (4 thorough) x input classes: every equation holds mod p on the wire/io files, public values are linked, the per-function files written by the backend's own prove() contain every traced equation in its context, same-named calls have equal equation sets and digests (an inconsistently defined function is reported), distinct equation sets have distinct digests over everything explored, every call has a glue whose paired blocks list all arguments and results in order with equal values and equal rnd1. A sample of histories is replayed in fresh interpreters and must give the same verdicts.",
+    note="The external qaptools executables are replaced by failing stubs; only what pysnark itself writes is checked."),
 }
 
 NOT_YET = {}
